@@ -321,6 +321,11 @@ class MSSubstituter(Substituter):
     @handles(set(op.ALL_TYPES) - op.QUANTIFIERS)
     def walk_replace(self, formula, args, **kwargs):
         new_f =  Substituter.super(self, formula, args=args, **kwargs)
+        if new_f.is_symbol() and not formula.is_symbol():
+            # The constructor collapsed the rebuilt term onto a symbol
+            # (e.g., Not(Not(p))): this is not an occurrence of a key,
+            # and p might already be the result of a replacement
+            return new_f
         return self._substitute(new_f, kwargs['substitutions'])
 
     def walk_forall(self, formula, args, **kwargs):
